@@ -19,11 +19,12 @@ PY_PERC = "PyLib PyLibSd PyLibPerc PySrcPerc PySrcPercFacts PyLibDrivers PySrcDr
 PY_SCC = "PyLib PyLibSd PyLibCore PyLibSd2 PyLibScc PySrcSdBase PySrcSdScc PySrcSdSccFacts"     # expand_source_SCCs.attach_scc_subdiagram
 PY_SCCMAIN = PY_SCC + " Control PyLibControl PySrcSdSccMain PySrcSdSccMainFacts"     # expand_source_SCCs.expand_source_SCCs
 PY_GETTERS = "PyLib PyLibCore PySrcCore PySrcCoreFacts PySrcGetters PySrcGettersFacts"     # node_ids, stub_ids, expanded_ids, minimal_trap_spaces, find_node, edge_stable_motif, edge_all_stable_motifs (pinned text)
+PY_SUCC = "PyLibSucc PySrcSucc PySrcSuccFacts PySrcSuccCtl PySrcSuccCtlFacts"     # control.successions_to_target (translated), succession_control / Intervention (pinned glue)
 PY_API = PY_SCCMAIN + " PyLibBlocks PySrcSdBlocks PySrcSdBlocksFacts PySrcApi PySrcEndToEndScc PySrcEndToEndBlocks"     # public methods expand_scc / expand_block / build; expand_source_blocks
 PY_CONTROL = "PyLib PyLibSd PyLibPerc PyLibCore PyLibControl PySrcControl PySrcControlFacts PySrcFindDriversFacts PySrcControlCorollaries"    # control.find_drivers, drivers_of_succession
 PY_ASEEDS = PY_MIN + " Candidates Blocks ASeeds PySrcSdASeeds PySrcSdASeedsFacts"     # _sd_algorithms/expand_attractor_seeds.py
 EXTRA_IMPORTS = {"C02": PY_SD + " " + PY_CORE2 + " PySrcEndToEnd", "C01": PY_API, "C03": PY_SD + " " + PY_ASEEDS + " PySrcComplFacts " + PY_API + " " + PY_GETTERS, "C04": PY_SD + " " + PY_CORE, "C05": PY_CORE2 + " " + PY_MIN, "C13": PY_SD + " " + PY_TARGET + " " + PY_ASEEDS + " PySrcTermFacts " + PY_API, "C14": PY_CORE2 + " " + PY_SCC, "C15": PY_SD + " " + PY_TARGET + " " + PY_ASEEDS, "C16": "PyLib PyLibPickle PySrcPickle PySrcPickleFacts " + PY_CORE2,
-                 "C06": PY_SPACE + " " + PY_TARGET + " PySrcEndToEndControl " + PY_CONTROL, "C07": PY_CONTROL, "C10": PY_PLACE, "C11": PY_PERC, "C19": PY_SD + " " + PY_CORE, "C20": PY_KEY + " " + PY_CORE2 + " PyLibSd PyLibPerc PySrcIso PySrcIsoFacts " + PY_GETTERS}
+                 "C06": PY_SPACE + " " + PY_TARGET + " PySrcEndToEndControl " + PY_CONTROL + " " + PY_SUCC, "C07": PY_CONTROL + " PyLibSd2 PySrcSdBase PySrcSdTarget PySrcSdTargetFacts " + PY_SUCC, "C10": PY_PLACE, "C11": PY_PERC, "C19": PY_SD + " " + PY_CORE, "C20": PY_KEY + " " + PY_CORE2 + " PyLibSd PyLibPerc PySrcIso PySrcIsoFacts " + PY_GETTERS}
 
 def imports_for(pid):
     extra = EXTRA_IMPORTS.get(pid)
@@ -273,7 +274,11 @@ decision procedure run on the implementation's interventions.  succession_contro
 for every intervention reported successful on a diagram prepared by the target-directed expansion, the succession is a
 chain of nested trap spaces from the whole state space, every listed override has the step's motif in its LDOI and
 forces it, the final trap space meets the target and every minimal trap space inside it lies inside the target.""",
- theorems=[("override_forces", "override_forces", None), ("override_forces_code", "override_forces_code", None),
+ theorems=[("source_successions_to_target", "py_successions_to_target_spec", "translator tie: the function GENERATED from the current text of control.successions_to_target (PySrcSucc.v: optional generated expand_to_target, hot-lava scan, descendant sets, end points, simple paths, products of reduced motif lists, feed-forward elimination) returns the model's successions_ff on the diagram left by expand_to_target, for every diagram satisfying succ_inv and every target fixing at least one variable"),
+           ("source_successions_scan", "py_successions_scan_spec", None), ("source_successions_empty_target_differs", "py_successions_empty_target_differs", "the empty target is outside the tie (and outside C06's quantifier): Python reads the empty intersection as inconsistent"),
+           ("source_succession_control", "py_succession_control_spec", "succession_control as written in the source (pinned glue calling the generated successions_to_target and drivers_of_succession) is the model's succession_control_ff filtered by successful_only"),
+           ("source_text_succession_control_sound_after_any_history", "py_succession_control_after_any_history_sound", "C06 for the SOURCE TEXT, end to end: after any history, every intervention the generated succession_control reports as successful is sound"),
+           ("override_forces", "override_forces", None), ("override_forces_code", "override_forces_code", None),
            ("find_drivers_force", "find_drivers_force", None), ("forced_b_spec", "forced_b_spec", None),
            ("find_drivers_avoid_assume", "find_drivers_avoid_assume", "a reported driver never contradicts values already fixed"),
            ("percolation_of_trap_is_nested_trap", "percolate_b_trap", "each step of a succession is a trap space nested in the previous one"),
@@ -302,7 +307,8 @@ Model: Control.find_drivers (size classes in ascending order, supersets of found
 successions_spec / successions_nodup: the successions are exactly the chains of reduced motifs along all root
 paths to the end nodes, one motif per edge, each once; target_expansion_post: what the target-directed
 expansion expands.""",
- theorems=[("source_text_find_drivers_sound", "py_find_drivers_sound", "C07 for the SOURCE TEXT of control.find_drivers (generated function): every reported override forces, avoids forbidden variables, respects the bound; the list is complete and minimal"),
+ theorems=[("source_succession_control", "py_succession_control_spec", "succession_control as written in the source (its glue pinned to a reference text, calling the GENERATED successions_to_target and drivers_of_succession) is the model's succession_control_ff filtered by successful_only: the overrides listed per step are those of the model's drivers_of_succession, to which the completeness / minimality theorems below apply"),
+           ("source_text_find_drivers_sound", "py_find_drivers_sound", "C07 for the SOURCE TEXT of control.find_drivers (generated function): every reported override forces, avoids forbidden variables, respects the bound; the list is complete and minimal"),
            ("source_text_find_drivers_complete", "py_find_drivers_complete", None), ("source_text_find_drivers_minimal", "py_find_drivers_minimal", None),
            ("source_find_drivers", "py_find_drivers_spec", "translator tie: the function GENERATED from the current text of control.find_drivers (PySrcControl.v; embedding PyLibControl.v: combinations, product, the dict comprehensions, the minimality test) computes the model's find_drivers for both strategies, any bound, any forbidden set and any assumption"),
            ("source_drivers_of_succession", "py_drivers_of_succession_spec", "translator tie: the function GENERATED from the current text of control.drivers_of_succession (PySrcControl.v) computes the model's drivers_of_succession (per-step default bound, assumption grown by the LDOI of each step)"),
